@@ -103,6 +103,10 @@ def main():
         meta.setdefault("checks", {})
         meta["checks"].update({"caught_by": sorted(caught), "caught_by_target": out["caught_by_target"], "reports": {p: v["lines"][:2] for p, v in caught.items()},
                                "rerun_at": time.strftime("%Y-%m-%d %H:%M:%S")})
+        if "--skip-confirm" not in sys.argv:
+            # the confirmation itself was repeated (e.g. after a flaky suite run under load): record it
+            meta["confirmation"] = {k: v for k, v in out.items() if k != "caught_by"}
+            meta["confirmed_at"] = time.strftime("%Y-%m-%d %H:%M:%S")
         json.dump(meta, open(mp, "w"), indent=1)
         return 0
     if keep:
